@@ -47,6 +47,18 @@ T = {
             'Random operation histories (15 op kinds incl. mutation attempts on every derived container) over a small pool; after every operation '
             'every registered live cell is re-fingerprinted (hash, bits, ref identities, 6 serialisations).',
             'only derived objects are attacked; mutating cell.bits/cell.refs of the cell object itself is outside the property'),
+    'C09': ('metamorphic round-trip monitor over 5 parse routes + independent Hashmap decoder (R4) + postcondition hook on HashMap.set_int_key + '
+            'fault enumeration of unfit keys',
+            'exploration', '4/C09',
+            'Every non-empty key subset of widths 1..3 (width 4 in thorough) x insertion orders; hostile key shapes up to width 1011 / 2000 keys / 400 nested forks; '
+            '7 value kinds, 6 key forms; parsed pairs, ascending order, order independence, empty map = no cell; unfit keys refused and map unchanged.',
+            'R4 decoder written from hashmap.tlb; fork nesting <= 400 (recursion limit beyond)'),
+    'C10': ('reference-model monitor: canonical Patricia-tree encoder (R4, dict.cpp label rule) vs library hash; any-label/pruned/augmented reference trees fed to '
+            'every parser entry point',
+            'exploration', '4/C10',
+            'Label table (n, m, uniform/mixed): all pairs in thorough, all m<=48 plus tie-break bands in quick; random maps over hostile shapes; parser half: '
+            'reference trees with random valid label kinds (incl. zero-length), HashmapAug extras, random pruned subtrees through 7 parser entry points.',
+            'R4 encoder/decoder validated on the pinned dictionary hash and by encoder/decoder identity'),
     'C13': ('metamorphic round-trip monitor + independent 36-byte layout/CRC-16 reference + fault enumeration of single-character substitutions',
             'fault_enumeration', '4/C13',
             'All 256 workchains x id patterns x 9 renderings round-trip with flags; for sampled addresses all 48x63 substitutions are rejected.',
